@@ -157,6 +157,11 @@ func newDiskBase(parent string) (string, []string, error) {
 	if err != nil {
 		return "", nil, err
 	}
+	// a few private levels above the world: ".." chains of a case stay in directories the model knows
+	d = filepath.Join(d, "u1", "u2", "u3")
+	if err := os.MkdirAll(d, 0o755); err != nil {
+		return "", nil, err
+	}
 	p, err := filepath.EvalSymlinks(d)
 	if err != nil {
 		return "", nil, err
@@ -607,7 +612,7 @@ func structuredLoaderCases(r *Run, lw *liveWorld, fsTerm string, maxLen int, toM
 
 // ---------- random worlds ----------
 
-var rwNames = []string{"a", "b", "c", "root", "root-evil", "k.yaml", "x"}
+var rwNames = []string{"qa", "qb", "qc", "qrt", "qrt-evil", "qk.yaml", "qx"}
 
 func genRandTree(g *Rng, links bool, absPrefix string) *vnode {
 	root := newDir()
@@ -645,13 +650,18 @@ func genRandTree(g *Rng, links bool, absPrefix string) *vnode {
 		if g.Chance(70) && len(all) > 0 {
 			// an existing entry (possibly another link: chains and loops), relative or absolute
 			tgt := all[g.Intn(len(all))]
-			if g.Chance(30) {
-				t = absPrefix + "/" + strings.Join(tgt, "/")
+			isAbs := g.Chance(30)
+			if isAbs {
+				t = strings.Join(tgt, "/")
 			} else {
 				t = relPath(sl.here, tgt)
 			}
 			if g.Chance(15) {
 				t = perturb(g, t)
+			}
+			if isAbs {
+				// perturbations stay inside the world: the real ancestors of a disk world are not modelled
+				t = absPrefix + "/" + t
 			}
 		} else {
 			t = genLinkTarget(g, absPrefix)
@@ -693,9 +703,6 @@ func relPath(from, target []string) string {
 func perturb(g *Rng, p string) string {
 	parts := strings.Split(p, "/")
 	i := g.Intn(len(parts) + 1)
-	if strings.HasPrefix(p, "/") && i == 0 {
-		i = 1 // an absolute path stays absolute (the process working directory is not part of a case)
-	}
 	var ins []string
 	switch g.Intn(6) {
 	case 0:
@@ -709,7 +716,7 @@ func perturb(g *Rng, p string) string {
 	case 4:
 		ins = []string{g.Pick(rwNames)}
 	default:
-		ins = []string{"nope", ".."}
+		ins = []string{"qnope", ".."}
 	}
 	out := append(append(append([]string{}, parts[:i]...), ins...), parts[i:]...)
 	return strings.Join(out, "/")
@@ -753,16 +760,21 @@ func genQueryPath(g *Rng, all [][]string, from []string, absPrefix string, allow
 	if g.Chance(75) && len(all) > 0 {
 		tgt := all[g.Intn(len(all))]
 		var p string
-		if allowRel && g.Chance(50) {
-			p = relPath(from, tgt)
+		isAbs := !(allowRel && g.Chance(50))
+		if isAbs {
+			p = strings.Join(tgt, "/")
 		} else {
-			p = absPrefix + "/" + strings.Join(tgt, "/")
+			p = relPath(from, tgt)
 		}
 		for g.Chance(35) {
 			p = perturb(g, p)
 		}
 		if g.Chance(5) {
 			p += "/"
+		}
+		if isAbs {
+			// perturbations stay inside the world: the real ancestors of a disk world are not modelled
+			p = absPrefix + "/" + p
 		}
 		return p
 	}
@@ -778,7 +790,7 @@ func genQueryPath(g *Rng, all [][]string, from []string, absPrefix string, allow
 			if g.Chance(40) {
 				parts = append(parts, "")
 			} else {
-				parts = append(parts, "nope")
+				parts = append(parts, "qnope")
 			}
 		default:
 			parts = append(parts, g.Pick(rwNames))
@@ -1053,7 +1065,7 @@ func runC05(r *Run, rng *Rng, tier string) error {
 	if err != nil {
 		return err
 	}
-	r.Meta.Rule = "path functions: every string over {/ . a} up to length 6 (8 thorough) + adversarial spellings; file systems: random trees (names a,b,c,root,root-evil,k.yaml,x; " +
+	r.Meta.Rule = "path functions: every string over {/ . a} up to length 6 (8 thorough) + adversarial spellings; file systems: random trees (names qa,qb,qc,qrt,qrt-evil,qk.yaml,qx; " +
 		"links relative/absolute/dangling/looping/with dots and trailing slashes) in memory and on disk; loader: structured world (3 stacked roots, sibling base, outside directory with canary files, " +
 		"links in/out) x every path expression of <=3 (model) / <=4 (reference) atoms (<=6 thorough) over {., .., dir, file, link-in-dir, link-out-dir, link-in-file, link-out-file, /abs-root, /abs-outside} x depth 1..3 x {Load, New}; " +
 		"builds: the same expressions x 21 path-bearing fields through krusty.Run. non-trivial = the operation succeeded"
@@ -1070,7 +1082,7 @@ func runC05(r *Run, rng *Rng, tier string) error {
 	defer os.RemoveAll(diskParent)
 	// atom names must not exist in the real ancestors of the temp dir
 	for d := filepath.Dir(diskParent); ; d = filepath.Dir(d) {
-		for _, a := range []string{aFile, aDir, aLid, aLod, aLif, aLof, "zw"} {
+		for _, a := range append([]string{aFile, aDir, aLid, aLod, aLif, aLof, "zw", "qnope"}, rwNames...) {
 			if _, err := os.Lstat(filepath.Join(d, a)); err == nil {
 				return fmt.Errorf("atom name %s exists in %s", a, d)
 			}
